@@ -809,6 +809,9 @@ impl LineBuf {
 		self.update_graphemes();
 	}
 	pub fn drain(&mut self, start: usize, end: usize) -> String {
+		// A stale range (e.g. a block selection replayed by '.') must not index past the text
+		let end = end.min(self.grapheme_indices().len());
+		let start = start.min(end);
 		let drained = if end == self.grapheme_indices().len() {
 			if start == self.grapheme_indices().len() {
 				return String::new()
